@@ -170,6 +170,7 @@ UNIT = VUnit(
                Rw("R5", r"line\.extend_from_slice\(&chunk\[\.\.index\]\);", "extend_from_slice(&mut line, prefix(&chunk, index));"),
                Rw("R5", r"line\.extend_from_slice\(chunk\);", "extend_from_slice(&mut line, chunk.as_slice());"),
                Rw("R8", r"ArenaString::from_utf8_lossy_owned\(line\)", "from_utf8_lossy_owned(line)"),
+               Rw("R8", r"ArenaString::new_in\(arena\)", "Line { bytes: Vec::new() }", min_matches=0),
            ],
            inserts=[
                (r"if index < chunk\.len\(\)", 1, "proof { if index < chunk@.len() { lemma_found(input.rest(), chunk@, index as int); } else { lemma_skip_chunk(input.rest(), chunk@); } }"),
